@@ -465,6 +465,18 @@ def tounicode_violation(html):
     return None
 
 
+def written_violation(html):
+    """PDF 32000-1 9.10.3: the value of a bfchar entry is the UTF-16BE encoding of the glyph's text."""
+    document = scene.render(html)
+    scene.paint_all(document)
+    for glyph, text, line in scene.written_bfchar_lines(document):
+        want = f'<{glyph:04x}> <{text.encode("utf-16-be").hex()}>'
+        if line != want:
+            return (f'the ToUnicode CMap maps glyph {glyph:04x} (text {text!r}) with the line {line!r}; the UTF-16BE '
+                    f'value of the text gives {want!r}')
+    return None
+
+
 # ---------------------------------------------------------------------------------------------------
 # transformation matrix (anchors.py gather_anchors + matrix.py) on mock boxes with Fractions
 
@@ -620,7 +632,7 @@ def finding_still_there(html, finding_id):
 class C17(PropCheck):
     id = 'C17'
     extractors = (stack_kinds.generate,)
-    modules = ('WpModel.Props.C17', 'WpModel.Props.C17Paint', 'WpModel.Props.C17Text', 'WpModel.Props.C17Doc',
+    modules = ('WpModel.Props.C17Utf16', 'WpModel.Props.C17', 'WpModel.Props.C17Paint', 'WpModel.Props.C17Text', 'WpModel.Props.C17Doc',
                'WpModel.Props.C17Parts', 'WpModel.Props.C17Clip',
                'WpModel.Witness.C17')
     trusted_base = (
@@ -639,6 +651,8 @@ class C17(PropCheck):
         'modelled, not verified: the TableRowGroupBox / TableRowBox / TableColumn(Group)Box branches of '
         'layout_background_layer (painting area, clipped cell boxes) as Model/TablePartBg.lean, tied by the geometric '
         'display list of documents with separated-borders tables',
+        'modelled, not verified: the bfchar line of build_fonts_dictionary (UTF-16BE hex of the text, glyph id) as '
+        'Model/Utf16.lean, tied line by line to the written ToUnicode CMaps',
         'modelled, not verified: the `clip` rectangle of draw_stacking_context (auto substitution, operands of '
         'stream.rectangle) as Model/ClipRect.lean, tied by the clip stacks of the geometric display list',
         'modelled, not verified: layout_box_backgrounds (is there a Background, its colour), layout_backgrounds '
@@ -825,6 +839,28 @@ class C17(PropCheck):
                             (['regression-corpus'] if stripped else []) +
                             ([f'cmap>{len(entries) // 100 * 100}'] if len(entries) >= 100 else []))
 
+        sec_written = run.section(
+            'tounicode-written',
+            'every bfchar line of the ToUnicode CMaps written by build_fonts_dictionary for painted documents (the '
+            'fixed astral / ligature family first, then generated text) vs Utf16.bfcharLine on the entry of '
+            'font.cmap (glyph, text as code points); non-trivial = a text of several characters or a character '
+            'above U+FFFF')
+        written_docs = list(TEXT_CORPUS) + [text_document(rng, None) for _ in range(run.n(6, 100))]
+        for index, html in enumerate(written_docs):
+            try:
+                document = scene.render(html)
+                scene.paint_all(document)
+                entries = scene.written_bfchar_lines(document)
+            except Exception as exc:
+                render_errors[type(exc).__name__] = render_errors.get(type(exc).__name__, 0) + 1
+                continue
+            for k, (glyph, text, line) in enumerate(entries):
+                sec_written.add(sx.line('bfline', glyph, [ord(ch) for ch in text]), line,
+                                meta={'html': html, 'tounicode': True, 'signature': f'bf{index}/{k}'},
+                                nontrivial=len(text) > 1 or any(ord(ch) > 0xffff for ch in text),
+                                tags=['astral' if any(ord(ch) > 0xffff for ch in text) else
+                                      'cluster' if len(text) > 1 else 'bmp'])
+
         sec_round = run.section(
             'rounded-boxes',
             'Box.rounded_box / rounded_padding_box / rounded_border_box / rounded_content_box / rounded_box_ratio on '
@@ -914,8 +950,8 @@ class C17(PropCheck):
         if d['section'] == 'transform-matrix':
             return matrix_violation(frac_list(meta['lengths']), thaw_fns(meta['fns']), thaw_origin(meta['origin']),
                                     meta.get('kind', 'BlockBox'))
-        if d['section'] == 'tounicode':
-            return tounicode_violation(meta['html'])
+        if d['section'] in ('tounicode', 'tounicode-written'):
+            return tounicode_violation(meta['html']) or written_violation(meta['html'])
         if d['section'] == 'scene-geometry':
             return check_geometry(meta['html']) or check_html(meta['html'])[0]
         if d['section'] in ('scene-contexts', 'scene-paint', 'scene-laid-out'):
@@ -1102,7 +1138,13 @@ GEO_FINDINGS = {
 # line whose trailing spaces `remove_last_whitespace` strips.  Run first in the `tounicode` section.
 LINE_END_HTML = ('<style>body{font-size:10px}</style>'
                  '<p style="width:60px">aaa <b>bbb</b> ccc ddd <b>eee</b> fff</p>')
+# Characters outside the Basic Multilingual Plane (two UTF-16 code units per character in the bfchar value), alone,
+# next to BMP text, next to ligatures and across faces; DejaVu Sans has these glyphs.
+ASTRAL = '<style>body{font-size:10px;font-family:DejaVu Sans}</style>'
 TEXT_CORPUS = [
+    ASTRAL + '<p>a\U0001D7D8b \U0001F030 x\U0001F0A1</p><p>\U0001D7D9\U0001D7DA</p>',
+    ASTRAL + '<p>office \U0001D7DB waffle <b>\U0001D7DC\U0001F031</b> <i>na\u00efve \U0001F0A2</i></p>'
+    '<p style="opacity:0.5">\U0001D7DD \u2264 \U0001F032\u00e9</p>',
     LINE_END_HTML,
     '<style>body{font-size:10px;font-family:weasyprint}</style><p style="width:45px">ab cd ef gh <i>ij</i> kl</p>',
     '<style>body{font-size:10px}</style><p style="width:70px;text-align:justify">office <b>waffle </b> fjord naïve</p>',
